@@ -22,6 +22,13 @@ OTHER_TRAITS = {
     "arr": ["Debug", "Clone", "Copy", "PartialEq", "Eq", "PartialOrd", "Ord", "AsRef", "Deref", "Into", "From", "TryFrom", "Hash", "Borrow", "Default", "Serialize", "Deserialize", "Arbitrary", "IntoIterator"],
     "point": ["Debug", "Clone", "Copy", "PartialEq", "Eq", "PartialOrd", "Ord", "FromStr", "AsRef", "Deref", "Into", "From", "TryFrom", "Hash", "Borrow", "Display", "Default", "Serialize", "Deserialize", "Arbitrary"],
     "vec": ["Debug", "Clone", "PartialEq", "Eq", "PartialOrd", "Ord", "AsRef", "Deref", "Into", "From", "TryFrom", "Hash", "Borrow", "Default", "Serialize", "Deserialize", "Arbitrary", "IntoIterator"],
+    "astring": ["Debug", "Clone", "PartialEq", "Eq", "PartialOrd", "Ord", "FromStr", "AsRef", "Deref", "Into", "From", "TryFrom", "Hash", "Borrow", "Display", "Default", "Serialize", "Deserialize", "Arbitrary"],
+    "fvec": ["Debug", "Clone", "PartialEq", "PartialOrd", "AsRef", "Deref", "Into", "From", "TryFrom", "Borrow", "Default", "Serialize", "Deserialize", "Arbitrary", "IntoIterator"],
+    "box": ["Debug", "Clone", "PartialEq", "Eq", "PartialOrd", "Ord", "AsRef", "Deref", "Into", "From", "TryFrom", "Hash", "Borrow", "Display", "Default", "Serialize", "Deserialize", "Arbitrary"],
+    "cow": ["Debug", "Clone", "PartialEq", "Eq", "PartialOrd", "Ord", "AsRef", "Deref", "Into", "From", "TryFrom", "Hash", "Borrow", "Display", "Default", "Serialize", "Deserialize"],
+    "pint": ["Debug", "Clone", "Copy", "PartialEq", "Eq", "PartialOrd", "Ord", "FromStr", "AsRef", "Deref", "Into", "From", "TryFrom", "Hash", "Borrow", "Display", "Default", "Serialize", "Deserialize", "Arbitrary"],
+    "pfloat": ["Debug", "Clone", "Copy", "PartialEq", "PartialOrd", "FromStr", "AsRef", "Deref", "Into", "From", "TryFrom", "Borrow", "Display", "Default", "Serialize", "Deserialize", "Arbitrary"],
+    "opt": ["Debug", "Clone", "Copy", "PartialEq", "Eq", "PartialOrd", "Ord", "AsRef", "Deref", "Into", "From", "TryFrom", "Hash", "Borrow", "Default", "Serialize", "Deserialize", "Arbitrary"],
     "gen": ["Debug", "Clone", "Copy", "PartialEq", "Eq", "PartialOrd", "Ord", "AsRef", "Deref", "Borrow", "Default", "Serialize", "Deserialize", "Arbitrary", "Hash", "Display", "FromStr"],
 }
 
@@ -67,7 +74,12 @@ def build(tier, seed):
     int_types = ["u8", "i32", "u64", "i128", "usize"] if tier == "quick" else ["u8", "u16", "u32", "u64", "u128", "usize", "i8", "i16", "i32", "i64", "i128", "isize"]
     fams = [("int", t, INT_TRAITS, "%s" % "3") for t in int_types] + [("float", t, FLOAT_TRAITS, "3.5") for t in ("f32", "f64")]
     fams += [("other", "[i32; 3]", OTHER_TRAITS["arr"], "[1, 2, 3]"), ("other", "Point", OTHER_TRAITS["point"], "Point { x: 1, y: 2 }"),
-             ("other", "::alloc::vec::Vec<i32>", OTHER_TRAITS["vec"], "::alloc::vec::Vec::new()")]
+             ("other", "::alloc::vec::Vec<i32>", OTHER_TRAITS["vec"], "::alloc::vec::Vec::new()"),
+             # path-spelled alloc / core types: "other" inner types, whose generated code must not assume std's String / Vec family support
+             ("other", "::alloc::string::String", OTHER_TRAITS["astring"], "::alloc::string::String::new()"), ("other", "alloc::string::String", OTHER_TRAITS["astring"], "alloc::string::String::new()"),
+             ("other", "alloc::vec::Vec<f64>", OTHER_TRAITS["fvec"], "alloc::vec::Vec::new()"), ("other", "::alloc::boxed::Box<i32>", OTHER_TRAITS["box"], "::alloc::boxed::Box::new(0)"),
+             ("other", "::alloc::borrow::Cow<'static, str>", OTHER_TRAITS["cow"], "::alloc::borrow::Cow::Borrowed(\"\")"), ("other", "::core::primitive::i32", OTHER_TRAITS["pint"], "3"),
+             ("other", "core::primitive::f64", OTHER_TRAITS["pfloat"], "3.5"), ("other", "::core::option::Option<u8>", OTHER_TRAITS["opt"], "::core::option::Option::None")]
     for (fam, ty, traits, dflt) in fams:
         pre0 = POINT if ty == "Point" else ""
         for (label, attrs, pre, hv, finite, arb_ok) in guard_variants(fam, ty):
